@@ -5,6 +5,8 @@ heavy, every two-pass pipe a|b); oracle: reference truth table row by row, inter
 lists, argument abstraction unchanged, size not larger, result well formed.
 """
 
+import itertools
+
 from vmc import refmodel, space
 from vmc.engine import guarded
 
@@ -170,6 +172,9 @@ def plan(tier):
             tk.update(alpha=a, tnames=tnames, pol=pol)
             t.append(tk)
 
+    for n in (9, 10, 12) if tier == 'quick' else (9, 10, 11, 12, 13):
+        for first in sorted({0, 1, 2, 7, 8, 9, n - 2, n - 1} & set(range(n))):
+            t.append({'kind': 'wideif', 'n': n, 'first': first, 'alpha': 'SU', 'tnames': 'single'})
     for tk in space.tasks(2, 2, ALPHAS['SU'], 1):
         tk.update(alpha='SU', tnames='single', pol='core', kind='checksum')
         t.append(tk)
@@ -193,7 +198,7 @@ def plan(tier):
 
 def describe(tier):
     return {
-        'rule': 'E3 checksum deviation: F(2,2,symmetric+unary) x core output policies x every single pass with zlib/binascii checksums answering 0 (a pass may bucket by checksum, never conclude equality from it); long: chains of 60..1600 (thorough 6000) gates in five unary/binary patterns through every single pass and two pipes; E1: every circuit of F(n,k,A) (for n+k<=3 and the unary/chain families also with reversed, non-topological storage order) x output policy (none, sequences of <=2 nodes incl. '
+        'rule': 'wideif: 9..12 (13) inputs of which 2-3 are read, every ordered choice of positions from {0,1,2,7,8,9,n-2,n-1} with one >= 8, through input-removing passes and pipes; E3 checksum deviation: F(2,2,symmetric+unary) x core output policies x every single pass with zlib/binascii checksums answering 0 (a pass may bucket by checksum, never conclude equality from it); long: chains of 60..1600 (thorough 6000) gates in five unary/binary patterns through every single pass and two pipes; E1: every circuit of F(n,k,A) (for n+k<=3 and the unary/chain families also with reversed, non-topological storage order) x output policy (none, sequences of <=2 nodes incl. '
         'inputs/repeats, all sinks; "core" = none, each single node, (last,last),(last,x0),(x0,last), sinks) '
         'x transformer (RRG, RRG(allow_inputs_removal), MergeUnary, MergeDuplicate, MergeEquivalent, '
         'cleanup light/heavy, all 25 two-pass pipes a|b). A case = (circuit, outputs, transformer); '
@@ -340,6 +345,19 @@ def run_task(task, acc):
         return check_long(acc, task['pat'], task['L'])
     alpha = ALPHAS[task['alpha']]
     tn = _tnames(task['tnames'])
+    if task.get('kind') == 'wideif':
+        # wide interface, narrow cone: 9..12 inputs of which two or three are read (positions around 0, 8, n-1)
+        n = task['n']
+        P = sorted({0, 1, 2, 7, 8, 9, n - 2, n - 1} & set(range(n)))
+        for ar, t in ((2, 'AND'), (3, 'XOR')):
+            for pos in itertools.permutations(P, ar):
+                if max(pos) < 8 or pos[0] != task['first']:
+                    continue
+                for gates, outs in (((( t, tuple(pos)),), (n,)), (((t, tuple(pos)), ('NOT', (n,)), ('OR', (pos[0], pos[-1]))), (n + 1, n + 2))):
+                    acc.states += 1
+                    for tname in ('RRGi', 'RRG', 'RRGi|MDG', 'MUO|RRGi', 'RRGi|RRGi', 'cleanup'):
+                        check_one(n, gates, outs, tname, acc)
+        return
     if task.get('kind') == 'checksum':
         with degenerate_checksums():
             for gates in space.enum_gates(task['n'], task['k'], alpha, space.prefix_from_task(task)):
